@@ -398,11 +398,14 @@ def make_doc(n):
     return [Token.of_word(f'w{i}') for i in range(n)]
 
 
-def run_full(g, tags, deps, **cfg):
-    """depccg.parsing.run on a batch of equal-length sentences in one call (no worker pool); returns the raw result list"""
+def run_full(g, tags, deps, docs_out=None, **cfg):
+    """depccg.parsing.run on a batch of equal-length sentences in one call (no worker pool); returns the raw result list
+    (the token lists handed in are appended to docs_out if given)"""
     parsing, rt = boot.load_parsing()
     n = tags.shape[1]
     docs = [make_doc(n) for _ in range(tags.shape[0])]
+    if docs_out is not None:
+        docs_out.extend(docs)
     srs = [ScoringResult(np.ascontiguousarray(tags[i]), np.ascontiguousarray(deps[i])) for i in range(tags.shape[0])]
     cfg.setdefault('max_chunk_size', 10 ** 9)
     return parsing.run(docs, srs, list(g.tags), list(g.roots), g.binary, g.unary, **cfg)
